@@ -61,10 +61,13 @@ class ListV(Val):
 
 
 class BytesV(Val):
-    __slots__ = ("b",)
+    """a byte string; `off` (optional) is its absolute offset in the analysis' ambient input bytes, so that a
+    sub-slice of the remaining input can be turned back into an input cursor"""
+    __slots__ = ("b", "off")
 
-    def __init__(self, b):
+    def __init__(self, b, off=None):
         self.b = b
+        self.off = off
 
     def __repr__(self):
         return "b%r" % self.b.decode("latin1")
@@ -316,6 +319,8 @@ def snapshot(v, depth=0):
     return ("top",)
 
 
+import re as _re
+_GENERIC_PARAM = _re.compile(r"^[A-Z][A-Z0-9_]*$")
 _INT_RANGE = {"u8": (0, 255), "u16": (0, 65535), "u32": (0, 2**32 - 1), "u64": (0, 2**64 - 1), "usize": (0, 2**64 - 1), "u128": (0, 2**128 - 1),
               "i8": (-128, 127), "i16": (-32768, 32767), "i32": (-2**31, 2**31 - 1), "i64": (-2**63, 2**63 - 1), "isize": (-2**63, 2**63 - 1), "i128": (-2**127, 2**127 - 1)}
 
@@ -957,7 +962,7 @@ class Engine:
                 nf.gargs = tuple(c.get("resolved_gargs") or c.get("gargs") or ())
                 return [st]
         # 4. event
-        st.trace.append(Event("call", name, rname, tuple(snapshot(a) for a in args), fr.bi, line, len(st.frames), fr.body.npath if fr.body else "?", extra={"gargs": tuple(c.get("gargs", ())), "self_ty": c.get("self_ty")}))
+        st.trace.append(Event("call", name, rname, tuple(snapshot(a) for a in args), fr.bi, line, len(st.frames), fr.body.npath if fr.body else "?", extra={"gargs": self.concrete_gargs(st, c), "self_ty": c.get("self_ty")}))
         # havoc memory reachable through &mut arguments
         for a in args:
             a = self.resolve(st, a)
@@ -965,6 +970,23 @@ class Engine:
                 self.havoc(a)
         r = st.fresh(("ret", name, fr.bi, tuple(snapshot(a) for a in args)))
         return self.finish_call(st, fr, [(st, r)], dest, target, t)
+
+    def concrete_gargs(self, st, c):
+        """generic arguments of a callee with the caller's generic parameters (FORMAT, T, N ...) replaced by what the
+        enclosing analysed-in-place call was instantiated with, when that is unambiguous"""
+        out = []
+        for g in (c.get("gargs") or ()):
+            g = str(g)
+            if _GENERIC_PARAM.match(g):
+                for fr_ in reversed(st.frames):
+                    cand = [x for x in fr_.gargs if not _GENERIC_PARAM.match(str(x))]
+                    if len(fr_.gargs) == 1 and len(cand) == 1:
+                        g = str(cand[0])
+                        break
+                    if fr_.gargs:
+                        break
+            out.append(g)
+        return tuple(out)
 
     def havoc(self, ref):
         cur = load(Loc(ref.cell, ref.path))
